@@ -21,6 +21,11 @@ Proved here, for **all** digit strings, exponents, float types `f32`/`f64`, the 
   underflow cut) rounds **down** to a finite float `b` with `b ≤ M/radix^j ≤ next(b)` (`SlowBracket`) and that the two
   scaled integers fit (`NegGuard`), the result is `roundNE (M/radix^j)`: the comparison with the half-way point
   `b + h` is exact, round down / up / ties-to-even follow it;
+* `negative_digit_comp_correct_weak` — the same under the **weak** bracket of the pipeline theorem
+  (`WeakBracket` = `Props.C01.Bracket` on the un-biased estimate: `b ≤ roundNE x ≤ b + 1` as bit patterns);
+  `slowBracket_weak`: the strong bracket implies it;
+* `scientific_exponent_spec`, `scientific_exponent_digits` — `scientific_exponent` = exponent + ⌊log_radix mantissa⌋;
+* `small_mul_refines`, `shl_limbs_refines` — the value-level big integers agree with the limb-level ones;
 * `slow_radix_correct` (d) — `slow_radix` = `scientific_exponent`, `parse_mantissa`, then (b) or (c); with
   `value_untruncated` / `value_zero_tail`: the rounded number is the exact value of the **whole** digit string when
   at most `max_digits` digits are significant or only zeros are cut.
@@ -541,6 +546,34 @@ theorem byte_comp_lowercase_regression :
     slowRadix envRadix FTy.f64 true 11 ⟨9007199254740993, 0, bytesOf "2179A75830112629", none⟩
       ⟨9223372036854776832, 1065⟩ = some ⟨0, 1076⟩ ∧
     extendedToFloat FTy.f64 ⟨0, 1076⟩ = roundNE f64 (2 ^ 53 + 1) 1 := by decide +kernel
+
+/-! ## `scientific_exponent` -/
+
+/-- **`scientific_exponent_spec`**: for a non-zero `u64` mantissa `m` and `|exponent| ≤ 2^30`, `scientific_exponent`
+returns `exponent + T` with `radix^T ≤ m < radix^(T+1)`: the weight of the leading digit of `m·radix^exponent` -/
+theorem scientific_exponent_spec {radix : Nat} (hr : 2 ≤ radix) (hr36 : radix ≤ 36) {m : Nat} (hm1 : 1 ≤ m)
+    (hm : m < 2 ^ 64) {e : Int} (he1 : -(2 ^ 30 : Int) ≤ e) (he2 : e ≤ 2 ^ 30) :
+    ∃ T : Nat, radix ^ T ≤ m ∧ m < radix ^ (T + 1) ∧ scientificExponent radix m e = e + T :=
+  scientificExponent_spec hr hr36 hm1 hm he1 he2
+
+/-- for a mantissa written with `k` digits (leading digit non-zero) that is `exponent + k − 1` -/
+theorem scientific_exponent_digits {radix : Nat} (hr : 2 ≤ radix) (hr36 : radix ≤ 36) (d : Nat) (ds : List Nat)
+    (hd0 : d ≠ 0) (hds : ∀ x ∈ d :: ds, x < radix) (hm : ofDigits radix (d :: ds) < 2 ^ 64) {e : Int}
+    (he1 : -(2 ^ 30 : Int) ≤ e) (he2 : e ≤ 2 ^ 30) :
+    scientificExponent radix (ofDigits radix (d :: ds)) e = e + ds.length := by
+  have hpos := ofDigits_pos_of_head (by omega : 0 < radix) ds hd0
+  obtain ⟨T, t1, t2, t3⟩ := scientificExponent_spec hr hr36 hpos hm he1 he2
+  have hlt := ofDigits_lt (d :: ds) hds
+  have hge : radix ^ ds.length ≤ ofDigits radix (d :: ds) := by
+    rw [ofDigits_cons]
+    have : 1 * radix ^ ds.length ≤ d * radix ^ ds.length := Nat.mul_le_mul_right _ (by omega)
+    omega
+  rw [List.length_cons] at hlt
+  have a1 : T < ds.length + 1 := (Nat.pow_lt_pow_iff_right (by omega : 1 < radix)).mp (Nat.lt_of_le_of_lt t1 hlt)
+  have a2 : ds.length < T + 1 := (Nat.pow_lt_pow_iff_right (by omega : 1 < radix)).mp (Nat.lt_of_le_of_lt hge t2)
+  rw [t3]
+  have : T = ds.length := by omega
+  rw [this]
 
 /-! ## the value-level big integers refine the limb-level ones -/
 
